@@ -9,12 +9,15 @@ pub tag=<n> size=<n> ttl=<s>                                           -> off=<o
 remove                                                                 -> ok
 adv n=<seconds>                                                        -> ok
 sub [via=cmd|connect] mode=stream|cache rec=0|1 auto=0|1 off=<o> ep=<epoch index, 0 = empty> rej=0|1
-    delta=0|1 cf=<filter> sf=<filter> h=<handler>
+    delta=0|1 cf=<filter> sf=<filter> h=<handler> [w=<window>]
       via     = cmd (default): client subscribe command; connect: server-side subscription returned by
                 OnConnecting with the position taken from ConnectRequest.Subs — `connectCmd` copies
                 Recover/Offset/Epoch/Delta into the request handed to the same `subscribeCmd`, there is no
                 client tags filter and no reject flag on that path (cf must be -, rej 0, else bad-op)
       filter  = -  | e<v> (tag == v) | n<v> (tag != v)
+      window  = -  | events joined by + : p<tag>.<size>.<ttl> (a publication made right after the
+                subscribe's history read returned) | s<k> (a late PUB/SUB copy of the publication k below
+                the top the read saw; ignored when there is none).  Stream mode only.
       handler = -  | err:<pubs> | 0:<pubs> | 1:<pubs>    pubs = tag.size.ttl joined by + (or empty)
   -> <outcome> pre=<state> post=<state> hi=<handler invoked 0|1> hp=<offsets the handler published>
      outcome = rec=<0|1> pubs=<offset:id,…> off=<o> ep=<e> pos=<o> was=<0|1> | err=112 | disc=3010 | disc=3004
@@ -64,6 +67,15 @@ def parseHandler (s : String) : Option (Option (Bool × Bool × List (Nat × Nat
       | "1", some l => some (some (false, true, l))
       | _, _ => none
     | _ => none
+
+def parseWEvent (s : String) : Option WEvent :=
+  match s.toList with
+  | 'p' :: r => (parseTriple (String.ofList r)).map (fun (a, b, c) => WEvent.pub a b c)
+  | 's' :: r => (String.ofList r).toNat?.map WEvent.stale
+  | _ => none
+
+def parseWindow (s : String) : Option (List WEvent) :=
+  if s == "-" then some [] else (s.splitOn "+").mapM parseWEvent
 
 def showOutcome : Outcome → String
   | .unrecoverable => "err=112"
@@ -115,9 +127,13 @@ def step (h : Hub) (line : String) : Hub × String :=
       if mode != some "stream" && mode != some "cache" then (h, "bad-op") else
       if via != "cmd" && via != "connect" then (h, "bad-op") else
       if via == "connect" && (cf.isSome || rej) then (h, "bad-op") else
+      match parseWindow ((kv rest "w").getD "-") with
+      | none => (h, "bad-op")
+      | some win =>
+      if mode == some "cache" && !win.isEmpty then (h, "bad-op") else
       -- an epoch index that does not exist yet stands for a foreign epoch string
       let ep := if ep ≥ h.nextEpoch then ep + 1000000000 else ep
-      let sp : SubParams := ⟨mode == some "cache", r, a, ⟨off, ep, rej⟩, d, mkFilt cf sf, hd⟩
+      let sp : SubParams := ⟨mode == some "cache", r, a, ⟨off, ep, rej⟩, d, mkFilt cf sf, hd, win⟩
       let r := h.subscribe sp
       let hp := joinWith "," (r.hpubs.map (fun p => toString p.offset))
       (r.hub, s!"{showOutcome r.out} pre={showState h.stream} post={showState r.hub.stream} hi={if r.invoked then 1 else 0} hp={hp}")
